@@ -376,4 +376,15 @@ def compare(mod, a, b):
         return "undecided", "canonicaliser error: %r" % (e,)
     if ca == cb:
         return "equal", "graph canonical form"
+    # second normal form: if-converted terms with decision diagrams over threshold atoms (engine_e2)
+    from . import engine_e2
+    try:
+        if engine_e2.compare(mod, a, b):
+            return "equal", "term normal form"
+    except engine_e2.Unsupported:
+        pass
+    except RecursionError:
+        pass
+    except Exception:               # parser limits are never a verdict
+        pass
     return "different", "bodies differ after normalisation"
